@@ -1004,6 +1004,31 @@ def __loadxmlparts(z, manifest, doc, objectpath):
         except KeyError as v: pass
         except SAXParseException:
             print (u"====== SAX FAILED TO PARSE ==========\n", xmlpart)
+    __dropRepeatedAutomaticStyles(doc)
+
+def __dropRepeatedAutomaticStyles(doc):
+    """
+    content.xml and styles.xml each carry the automatic styles they use, so a
+    style used by both is read twice. Only style:style elements are renamed
+    on a clash; the others (list styles, data styles, page layouts...) would
+    stay in the document twice under one name, and both copies would be
+    written to both parts at the next save. Keep one copy of identical ones.
+    @param doc the OpenDocument instance just loaded
+    """
+    seen = {}
+    for e in list(doc.automaticstyles.childNodes):
+        if e.nodeType != element.Node.ELEMENT_NODE:
+            continue
+        name = e.getAttrNS(STYLENS, u'name')
+        if name is None:
+            continue
+        xml = StringIO()
+        e.toXml(1, xml)
+        key = (e.qname, name)
+        if seen.get(key) == xml.getvalue():
+            doc.automaticstyles.removeChild(e)
+        else:
+            seen.setdefault(key, xml.getvalue())
 
 def __fixXmlPart(xmlpart):
     """
